@@ -179,4 +179,25 @@ Proof.
   apply (i_cinv _ _ _ _ _ _ _ _ _ Hinv').
 Qed.
 
+(* either entry point: w = WC is Graph.call, w = WH is Graph.get_hash *)
+Theorem call_refines_w w f v σ :
+  spnode gens ins (spq g gens apply raises ins f) w o = Some v -> CInv σ ->
+  exists k s', (forall k', k <= k' ->
+      run g gens apply raises cstore cget cset interfere k' (init_state g cstore ins o (cmd_of w) σ)
+      = Finished cstore v s') /\ CInv (sto cstore s').
+Proof.
+  intros Hs Hc.
+  assert (Hcnt : cnt cstore (s0 σ) o >= 1).
+  { unfold cnt. rewrite (cntc_s0 σ WC). pose proof (budget o). unfold ind in *. rewrite Nat.eqb_refl in *. lia. }
+  assert (Hclosed : forall n p, In n R -> In p (parents g n) -> In p R \/ aget ins p <> None).
+  { intros n p Hn Hp. destruct (proj1 (proj2 (proj2 (counts_ok g inputs 2 wfg o o Ho))) n p Hn Hp) as [H|H]; [left; exact H|].
+    right. apply isin_aget. exact H. }
+  destruct (ev_output_w g gens apply raises ins cstore cget cset Good CInv cinv_get cinv_set interfere interfere_inv
+              R (proj1 (proj2 (counts_ok g inputs 2 wfg o o Ho))) wfg Hclosed gens_ok f w o (s0 σ) v Hs
+              (Inv_s0 σ Hc) Hcnt o_in_dom) as (s' & Hnode & Hinv').
+  destruct (sim_call g gens apply raises cstore cget cset interfere f o w (s0 σ) v s' Hnode) as [k Hk].
+  exists k, (mk cstore [v] [CReturn] s'). split; [|apply (i_cinv _ _ _ _ _ _ _ _ _ Hinv')].
+  intros k' Hle. rewrite init_is_s0. apply Hk. exact Hle.
+Qed.
+
 End Main.
